@@ -71,6 +71,10 @@ pub fn u_names() -> Universe {
     )
 }
 
+pub fn u_names_small() -> Universe {
+    Universe::new("U_names_small", &["/a", "/ab", "/a.b", "/é", "/a/a", "/a.b/é"])
+}
+
 pub fn alphabet(u: Universe, contents: &[&[u8]], append_cap: usize, composites: bool) -> Alphabet {
     Alphabet {
         universe: u,
@@ -206,7 +210,7 @@ pub fn run_spaces(ctx: &Ctx, spaces: Vec<TreeSpace>, lim: &Limits) -> (Vec<Stats
         }
         let (st, v) = bfs(&s, lim);
         println!(
-            "  [{}] states={} transitions={} depth={} fixpoint={} nontrivial={} violations={} ({:.1}s){}",
+            "  [{}] states={} transitions={} depth={} fixpoint={} nontrivial={} violations={}/{} ({:.1}s){}",
             st.label,
             st.states,
             st.transitions,
@@ -214,6 +218,7 @@ pub fn run_spaces(ctx: &Ctx, spaces: Vec<TreeSpace>, lim: &Limits) -> (Vec<Stats
             st.fixpoint,
             st.nontrivial,
             v.len(),
+            st.vio_counts.values().sum::<u64>(),
             st.wall_s,
             st.capped.as_ref().map(|c| format!(" CAPPED: {}", c)).unwrap_or_default()
         );
@@ -224,9 +229,20 @@ pub fn run_spaces(ctx: &Ctx, spaces: Vec<TreeSpace>, lim: &Limits) -> (Vec<Stats
 }
 
 pub fn finish(ctx: &Ctx, info: &RunInfo, coverage: Value, assumptions: &[&str], violations: &[Violation]) -> i32 {
-    let (fresh, known) = conclude(info, violations);
+    finish_counts(ctx, info, coverage, assumptions, violations, &Default::default())
+}
+
+pub fn finish_counts(
+    ctx: &Ctx,
+    info: &RunInfo,
+    coverage: Value,
+    assumptions: &[&str],
+    violations: &[Violation],
+    counts: &std::collections::BTreeMap<String, u64>,
+) -> i32 {
+    let (fresh, known) = conclude(info, violations, counts);
     let mut cov = coverage;
-    cov["violations_total"] = json!(violations.len());
+    cov["violations_total"] = json!(counts.values().sum::<u64>().max(violations.len() as u64));
     cov["known_finding_entries_matched"] = json!(known);
     write_evidence(info, cov, assumptions, ctx.t0.elapsed().as_secs_f64(), fresh);
     if fresh > 0 {
